@@ -71,7 +71,7 @@ DICTS = {
     "dict_c": {"gray": "gray", "img": "img_hwc"},
 }
 BASE_KINDS = [("vec", 3), ("mat", 3), ("cube", 2), ("ivec", 1), ("hyper", 1), ("img_hwc", 4), ("img_chw", 3), ("img_mid", 1),
-              ("gray", 1), ("u8box", 1), ("vec_nu", 1), ("mat_nu0", 1), ("pos", 1), ("dict_a", 5), ("dict_b", 2),
+              ("gray", 1), ("u8box", 1), ("vec_nu", 2), ("mat_nu0", 2), ("pos", 1), ("dict_a", 5), ("dict_b", 2),
               ("dict_c", 2)]
 
 
@@ -224,9 +224,11 @@ def gen_wrapper(rng, desc, widen):
     return {"w": kind}
 
 
-# base kinds on which the implementation is known to leave its declared space (K-C17-a, K-C17-b); their number per chunk
-# is capped so that the report's bounded violation list can never be filled up by known findings alone
-FINDING_KINDS = ("vec_nu", "pos", "mat_nu0")
+# base kinds on which the implementation is known to leave its declared space (K-C17-b: zero padding outside bounds that
+# exclude 0); their number per chunk is capped so that the report's bounded violation list can never be filled up by
+# known findings alone. (K-C17-a — bounds built with np.repeat — was fixed by e25cae6: "vec_nu"/"mat_nu0" are ordinary
+# kinds now, and a reappearance is diagnosed as cause=bounds_repeat_vs_tile, which no known finding matches.)
+FINDING_KINDS = ("pos",)
 MAX_FINDING_CASES = 12
 
 
